@@ -850,6 +850,29 @@ def seq_find(I, s, sub, start=0):
     if sub.items is None: raise Unsupported('find of symbolic-length needle')
     m = len(sub.items)
     n = zint(s.n) if not isinstance(s.n, int) else z3.IntVal(s.n)
+    s0q = zint(start)
+    if isinstance(start, int) and start >= 0 and m > 0:
+        # the needle sits right at the start position: that is the first occurrence
+        here = z3.And(s0q + m <= n, *[s.zat(mk(s0q + j)) == zint(sub.items[j]) for j in range(m)])
+        if st.quick(here):
+            return start
+    if s.parts and isinstance(start, int) and start >= 0 and m > 0:
+        # candidate: the needle starts exactly at a part boundary c of the concatenation.  It is the first occurrence iff it
+        # matches there and matches nowhere in [start, c): the latter is proved pointwise at a fresh index (skolemised query)
+        b = z3.IntVal(0)
+        for p_ in s.parts:
+            c = b
+            b = z3.simplify(b + (p_.n if not isinstance(p_.n, int) else z3.IntVal(p_.n)))
+            if not st.quick(c >= start):
+                continue
+            at_c = z3.And(c + m <= n, *[s.zat(mk(c + j)) == zint(sub.items[j]) for j in range(m)])
+            if not st.provable(at_c):
+                continue
+            k0 = z3.Int(st.fresh_name('fk'))
+            earlier = z3.And(*[s.zat(mk(k0 + j)) == zint(sub.items[j]) for j in range(m)])
+            if st.provable(z3.Implies(z3.And(k0 >= start, k0 < c), z3.Not(earlier))):
+                return mk(c)
+            break
     r = z3.Int(st.fresh_name('find'))
     s0 = zint(start)
     s0 = z3.If(s0 < 0, z3.If(s0 + n < 0, z3.IntVal(0), s0 + n), s0)
@@ -858,6 +881,18 @@ def seq_find(I, s, sub, start=0):
     k = z3.Int(st.fresh_name('k'))
     st.assume(z3.Or(r == -1, z3.And(r >= s0, r + m <= n, match(r))))
     st.assume(z3.ForAll([k], z3.Implies(z3.And(k >= s0, k + m <= n, z3.If(r == -1, z3.BoolVal(True), k < r)), z3.Not(match(k)))))
+    if s.parts:
+        # the haystack is a concatenation: when the path condition decides that the first occurrence sits exactly on a part
+        # boundary, continue with that boundary term (slices taken at it then recover the parts themselves)
+        b = z3.IntVal(0)
+        cands = []
+        for p_ in s.parts:
+            cands.append(b)
+            b = z3.simplify(b + (p_.n if not isinstance(p_.n, int) else z3.IntVal(p_.n)))
+        for c in cands:
+            if st.provable(r == c):
+                st.assume(r == c)
+                return mk(c)
     return mk(r)
 
 
